@@ -296,6 +296,26 @@ def r15_7(run):
             scen.append(('FAILED', dict(aa=aa, allfailed=False, conf=True, allans=False), (0, 0)))
     act = CUR['roles']['action']
     hs_defs = local_defs(hs)
+    # names that carry nothing but the event's own text
+    evt_names = set(hs.params)
+    changed = True
+    while changed:
+        changed = False
+        for nm, dl in hs_defs.items():
+            if nm in evt_names:
+                continue
+            okd = True
+            for d in dl:
+                exprs = [x for x in d[1:] if isinstance(x, ast.AST)]
+                if d[0] == 'param' or not exprs:
+                    okd = okd and d[0] in ('for',) and False
+                    continue
+                for e_ in exprs:
+                    if not set(x.id for x in ast.walk(e_) if isinstance(x, ast.Name) and isinstance(x.ctx, ast.Load)) <= evt_names | set(['len', 'int', 'str']):
+                        okd = False
+            if okd and dl:
+                evt_names.add(nm)
+                changed = True
     k = 0
     for leg, env, want in scen:
         unknown = []
@@ -351,6 +371,16 @@ def r15_7(run):
         desc = '%s, %s, %s' % (leg, 'await-all' if env['aa'] else 'wait-for-one',
                                'every attempt failed' if env['allfailed'] else ('%sconfirmed, %s' % ('' if env['conf'] else 'none ', 'all answered' if env['allans'] else 'some outstanding')))
         if unknown and len(set((c, e) for c, e, _ in outcomes)) > 1:
+            # tests that look only at the event's own text are free: the property quantifies over all events, so an outcome that
+            # depends on them (e.g. on the REASON= field) is wrong for some event.  Anything else stays undecided.
+            if all(set(x.id for x in ast.walk(ast.parse(t_, mode='eval')) if isinstance(x, ast.Name)) <= evt_names for t_ in set(unknown)):
+                for c, e, d in sorted(outcomes):
+                    if (c, e) != want:
+                        run.ob('R15.7', hs, hs.node, 'own event [%s]: success fired %d time(s), failure %d, whatever else the event says' % (desc, want[0], want[1]), False,
+                               slot='outcome-depends-on-event-text:%s' % desc,
+                               message='hs_desc on [%s] fires success %d / failure %d times when %s: the outcome depends on event fields the property does not '
+                                       'condition on (e.g. REASON=)' % (desc, c, e, ' / '.join(sorted(set(unknown))[:2])), path=d)
+                continue
             run.ob('R15.7', hs, hs.node, 'outcome decided for [%s]' % desc, None, message='hs_desc consults %s, which the oracle does not model' % sorted(set(unknown))[:2])
             continue
         for c, e, d in sorted(outcomes):
@@ -369,6 +399,36 @@ def r15_7(run):
             ok = True
         run.ob('R15.7', u, a, 'the waiting mode is what the caller asked for (None = wait for one)', ok, slot='mode-value',
                message='await_all = %s: the requested waiting mode is not honoured' % src(v)[:60])
+
+
+def r15_8(run):
+    """the waiting mode reaches the wait: every function that takes await_all_uploads hands its own value on to every
+    function it calls that takes it too (create() -> _add_ephemeral_service -> _await_descriptor_upload, and the filesystem
+    creators); an omitted argument silently means wait-for-one"""
+    mod = run.idx.modules.get('onion') or run.idx.modules.get('txtorcon.onion')
+    k = 0
+    takers = [u for u in run.idx.all_units() if isinstance(u.node, (ast.FunctionDef, ast.AsyncFunctionDef)) and 'await_all_uploads' in [a.arg for a in u.node.args.args + u.node.args.kwonlyargs]
+              and u.file.endswith('onion.py')]
+    byname = dict((u.name, u) for u in takers if u.owner_cls is None or True)
+    for u in takers:
+        for c in calls_in(u):
+            cal = dotted(c.func) or ''
+            tgt = byname.get(cal.split('.')[-1]) if cal and cal.split('.')[-1] in ('_add_ephemeral_service', '_await_descriptor_upload') else None
+            if tgt is None:
+                continue
+            params = [a.arg for a in tgt.node.args.args]
+            i = params.index('await_all_uploads')
+            val = None
+            if len(c.args) > i:
+                val = c.args[i]
+            for kw in c.keywords:
+                if kw.arg == 'await_all_uploads':
+                    val = kw.value
+            k += 1
+            run.ob('R15.8', u, c, '%s passes its waiting mode on to %s' % (u.short, tgt.name), val is not None and dotted(val) == 'await_all_uploads', slot='mode-flow:%s->%s' % (u.short, tgt.name),
+                   message='%s calls %s with await_all_uploads=%s: the caller\'s waiting mode is dropped and the service waits for the first upload only'
+                           % (u.short, tgt.name, src(val) if val is not None else '<omitted>'))
+    run.floor('R15.8', 'hand-over sites of the waiting mode', k, 4)
 
 
 def r15_5(run):
@@ -420,6 +480,7 @@ def r15_6(run):
 
 
 RULES = [
+    ('R15.8', 'parameter flow: await_all_uploads is handed on unchanged along create() -> helper -> _await_descriptor_upload', r15_8),
     ('R15.7', 'outcome oracle: path enumeration of hs_desc over (event kind, waiting mode, all-failed, any-confirmed, all-answered) with the wait still pending', r15_7),
     ('R15.6', 'no dropped Deferred in the creation coroutines (subscribe / command / wait / unsubscribe are all awaited)', r15_6),
     ('R15.1', 'guard agreement across legs: every mutation/fire in hs_desc is behind hostname_matches(event address); field positions per control-spec 4.1.25', r15_1),
@@ -432,6 +493,7 @@ RULES = [
 from ..selftest import M  # noqa: E402
 F = 'txtorcon/onion.py'
 MUTANTS = [
+    M('mode-not-handed-on', F, "        yield _add_ephemeral_service(config, onion, progress, version, None, await_all_uploads)", "        yield _add_ephemeral_service(config, onion, progress, version)", ['R15.8']),
     M('failed-last-never-completes', F, "                    elif await_all and confirmed_uploads:\n                        # this failure may have been the last\n                        # outstanding attempt\n                        if (len(failed_uploads) + len(confirmed_uploads)) == len(attempted_uploads):\n                            uploaded.callback(onion)", "                    elif await_all and confirmed_uploads:\n                        if (len(failed_uploads) + len(confirmed_uploads)) != len(attempted_uploads):\n                            uploaded.callback(onion)", ['R15.7']),
     M('failed-last-no-callback', F, "                        if (len(failed_uploads) + len(confirmed_uploads)) == len(attempted_uploads):\n                            uploaded.callback(onion)\n\n    # the first", "                        if (len(failed_uploads) + len(confirmed_uploads)) == len(attempted_uploads):\n                            pass\n\n    # the first", ['R15.7']),
     M('mode-inverted', F, "    await_all = False if await_all_uploads is None else await_all_uploads", "    await_all = False if await_all_uploads is not None else await_all_uploads", ['R15.7', 'R15.4']),
